@@ -17,9 +17,10 @@ from typing import Any, Dict, List, Optional, Tuple
 from vf.core import atoms as AT
 from vf.core import plugin
 from vf.core.descmatch import Matcher, TYPE_NAMES
+from vf.core.descmatch import resolve_hints
 from vf.core.runner import REPO, Ctx, HarnessError, Tally, Violation, merge_tallies, pmap_shards
 from vf.core.schema import Schema, render_proto
-from vf.core.universe import COLOR, LIB_MSGS, get_universe
+from vf.core.universe import COLOR, LIB_MSGS, SHADE, get_universe
 
 LEVEL = "translation_validation"
 _W: Dict[str, Any] = {}
@@ -36,7 +37,7 @@ def run_universe_chunk(tier: str, start: int, t: Tally) -> List[Violation]:
     lib = {m.name for m in LIB_MSGS}
     others = [m for m in u.schema.msgs if m.name not in lib][start:start + PER_RUN]
     pkg = f"vfu{start}"
-    files = {"lib.proto": render_proto(Schema(pkg, (COLOR,), LIB_MSGS))}
+    files = {"lib.proto": render_proto(Schema(pkg, (COLOR, SHADE), LIB_MSGS))}
     for i in range(0, len(others), CHUNK):
         txt = render_proto(Schema(pkg, (), tuple(others[i:i + CHUNK])))
         files[f"part{i // CHUNK}.proto"] = txt.replace(f"package {pkg};", f'package {pkg};\nimport "lib.proto";')
@@ -288,7 +289,7 @@ def check_bundled(t: Tally) -> List[Violation]:
                                          f"{modname}.{cname}.{f.name}: type {meta.proto_type}, {d.file.name} says {want_type}",
                                          {"kind": "bundled"}))
                 try:
-                    hint = cls._type_hints()[f.name]
+                    hint = resolve_hints(cls)[f.name]
                 except Exception:
                     t.inc("bundled_hints_unresolvable")
                     continue
